@@ -232,9 +232,17 @@ func Materialise(w *World) (*Site, error) {
 		os.WriteFile(filepath.Join(s.GitDir, "logs", "HEAD"), lg.Bytes(), 0o644)
 	}
 
-	if w.Layout == "packed" {
+	if w.Layout == "packed" || w.Layout == "promisor" {
 		if out, err := s.Git(nil, "repack", "-adq"); err != nil {
 			return fail(fmt.Errorf("repack: %v: %s", err, out))
+		}
+	}
+	if w.Layout == "promisor" {
+		// the pack of a partial clone: a pack-*.promisor marker beside it
+		// (every object is present; nothing needs to be fetched)
+		packs, _ := filepath.Glob(filepath.Join(s.GitDir, "objects", "pack", "pack-*.pack"))
+		for _, pk := range packs {
+			os.WriteFile(strings.TrimSuffix(pk, ".pack")+".promisor", nil, 0o644)
 		}
 	}
 	if w.Layout == "bitmap" {
